@@ -75,10 +75,14 @@ pub fn make_single_module(operation: &Operation, spec: &HirSpec, cfg: &Config) -
         .map(|s| s.to_rust_code());
 
     let assign_inputs = assign_inputs_to_request(&operation.parameters);
-    let output = if operation.ret.is_primitive() {
-        quote! { #response }
-    } else {
-        quote! { crate::model::#response }
+    let output = match &operation.ret {
+        Ty::Model(_) => quote! { crate::model::#response },
+        ret => {
+            if let Some(m) = ret.inner_model() {
+                add_model_import(&mut imports, m);
+            }
+            quote! { #response }
+        }
     };
 
     let impl_block = quote! {
